@@ -1,4 +1,4 @@
-import ShmVerif.Proof.Mux
+import ShmVerif.Proof.MuxEos
 /-!
   C07 — multiplexed streams stay isolated and ordered.
 
@@ -11,6 +11,10 @@ import ShmVerif.Proof.Mux
   `tagOf x.peer j arrived` = the messages that reached the peer's stream `j`, in arrival order.
   The guard `(x, j) ∉ recreated` excludes stream ids for which the SERVER re-created a stream object after closing one
   with the same id (two different streams then share an id).
+
+  `c07_eos_after_data`, `c07_no_data_behind_close`, `c07_no_flush_after_close` (invariant `Eos` of `Proof/MuxEos`): the
+  close notification of a stream never overtakes that stream's data - within the queue, within the connection, and across
+  the two - and once the peer has consumed it everything flushed on the stream has arrived.
 
   Operations are atomic here.  The sub-operation race "the wake-up is published (flag CAS) before the polling event is
   written" (DESIGN §6 F5a) is outside this model.
@@ -80,6 +84,58 @@ theorem c07_close_not_ahead_of_queued_data (qcap : Nat) (ops : List Op) (x : Sid
 example :
     let s := run { qcap := 4 } [.open_ .a, .flush .a 2 false, .flush .a 2 true, .flush .a 2 false, .deliver .b, .deliver .b]
     tagOf .a 2 s.sent = [0, 1, 2] ∧ tagOf .b 2 s.arrived = [0, 1] ∧ kdata 2 (s.ch .a).k = [2] ∧ s.recreated = [] := by
+  decide
+
+/-- EOS after data: once the peer has consumed the close notification of stream `j` (it was issued and is no longer in
+    flight), every message flushed on `j` has arrived at the peer — the notification never overtakes data, whichever of
+    the two channels each of them took. -/
+theorem c07_eos_after_data (qcap : Nat) (ops : List Op) (x : Side) (j : Nat) :
+    let s := run { qcap := qcap } ops
+    (x, j) ∉ s.recreated → (x, j) ∈ s.closeSent → ¬ PendClose j (s.ch x) →
+    tagOf x.peer j s.arrived = tagOf x j s.sent := by
+  intro s hr hc hp
+  have h := run_einv _ ops x j (einv_init qcap x j)
+  have e := h.eos hr
+  have hq : qdata j (s.ch x).q = [] := by
+    cases hq : qdata j (s.ch x).q with
+    | nil => rfl
+    | cons a r => exact absurd (e.e4 hc (Or.inl (by rw [hq]; simp))) hp
+  have hk : kdata j (s.ch x).k = [] := by
+    cases hk : kdata j (s.ch x).k with
+    | nil => rfl
+    | cons a r => exact absurd (e.e4 hc (Or.inr (by rw [hk]; simp))) hp
+  have := h.inv.ord hr
+  rw [hq, hk, append_nil, append_nil] at this
+  exact this
+
+/-- Nothing of stream `j` travels behind its close notification: not later in the shared queue, not later on the
+    connection, and not on the connection while the notification sits in the queue. -/
+theorem c07_no_data_behind_close (qcap : Nat) (ops : List Op) (x : Side) (j : Nat) :
+    let s := run { qcap := qcap } ops
+    (x, j) ∉ s.recreated →
+    qdata j (afterCloseQ j (s.ch x).q) = [] ∧ kdata j (afterCloseK j (s.ch x).k) = [] ∧
+    (closeInQ j (s.ch x).q → kdata j (s.ch x).k = []) := by
+  intro s hr
+  have e := (run_einv _ ops x j (einv_init qcap x j)).eos hr
+  exact ⟨e.e2o, e.e3, e.e2q⟩
+
+/-- After the close notification of `j` was issued no flush on `j` succeeds any more (so "flushed successfully before
+    closing" is everything that was ever flushed), and a notification in flight was indeed issued. -/
+theorem c07_no_flush_after_close (qcap : Nat) (ops : List Op) (x : Side) (j : Nat) (heap : Bool) :
+    let s := run { qcap := qcap } ops
+    (x, j) ∉ s.recreated → (x, j) ∈ s.closeSent → (flush s x j heap).2 = .closed := by
+  intro s hr hc
+  have e := (run_einv _ ops x j (einv_init qcap x j)).eos hr
+  obtain ⟨st, a, b⟩ := e.e1 hc
+  unfold flush
+  rw [a]
+  simp only
+  rw [if_pos b]
+
+-- non-vacuity: data through the queue, more data and the close through the connection; the close is consumed last
+example :
+    let s := run { qcap := 4 } [.open_ .a, .flush .a 2 false, .flush .a 2 true, .close .a 2, .deliver .b, .deliver .b, .deliver .b]
+    (Side.a, 2) ∈ s.closeSent ∧ s.recreated = [] ∧ (s.ch .a).k = [] ∧ (s.ch .a).q = [] ∧ tagOf .b 2 s.arrived = [0, 1] := by
   decide
 
 end Props.C07
